@@ -220,6 +220,8 @@ impl Ctx {
                             Ok(Err(e)) => note("add_version", t0, format!("{e:?}")),
                             Err(_) => note("add_version", t0, "panic".into()),
                         }
+                        // (a replica does something between two uploads; the snapshot and read streams get their turns)
+                        if r % 2 == 1 { std::thread::sleep(std::time::Duration::from_millis(1)); }
                     }
                 }));
             }
